@@ -92,7 +92,9 @@ def subharnesses(tier):
             subs.append(('%s-%s' % (sname, '_'.join(
                 str(x) for x in ev if not isinstance(x, (list, dict)))),
                 spec))
-            if tier == 'thorough' and ev[0] != 'none':
+            if tier == 'thorough' and ev[0] in ('presence_down', 'schedule',
+                                                'server_edit') and \
+                    sname in ('r0_1', 'ig', 'r01_n', 'once'):
                 for ev2 in (['presence_down', 1], ['delete', 1],
                             ['schedule', 3]):
                     spec = dict(store, nservers=2, events=[ev, ev2],
